@@ -192,7 +192,9 @@ def run(ctx: Ctx):
             push({"k": "cat", "items": items, "ok": ok, "out": [L(x) for x in out] if ok else []}, {"items": items, "path": "cat-align"})
     # Unicode hazards: code points special to str.strip / isprintable / splitlines / normalize / upper (vf/hazards.py)
     from vf import hazards
-    for hs in hazards.strings():
+    # sequences that are escapes in OTHER grammars (RFC 6868 parameter values, URL encoding, C strings, HTML): plain text here
+    other_escapes = ["2^n", "a^^b", "^'q^'", "^", "^^n", "x^Ny", "100%", "%41", "a%0Ab", "&amp;", "&#10;", "\\x41"[1:], "\\u0041"[1:], "$(x)", "{0}", "%s"]
+    for hs in hazards.strings() + other_escapes:
         codes = L(hs)
         ctx.case(("hazard", hs), True)
         push({"k": "enc", "s": codes, "out": L(rc.text_encode(hs))}, {"s": codes, "path": "enc-hazard"})
